@@ -65,7 +65,7 @@ def write_evidence(*, prop, tier, seed, mod, agg, sigs, states, samples, det, wa
         "wall_s": round(wall, 3),
         "violations": int(len(reported)),
     }
-    d = os.path.join(boot.VERIF_DIR, "evidence")
+    d = os.environ.get("VERIF_EVIDENCE_DIR") or os.path.join(boot.VERIF_DIR, "evidence")
     os.makedirs(d, exist_ok=True)
     path = os.path.join(d, f"{prop}.json")
     ok = True
